@@ -855,6 +855,7 @@ theorem deinterlace_interlace_bytes (i : Img) (c : Nat) (hc : 0 < c) (hbpp : i.i
     (hw : 1 ≤ i.ihdr.width) (hh : 1 ≤ i.ihdr.height) (hil : i.ihdr.interlaced = false)
     (hlen : i.data.length = i.ihdr.height * (i.ihdr.width * c)) :
     ∃ j, interlaceImage i = some j ∧ j.ihdr = { i.ihdr with interlaced := true } ∧
+      j.data = (allLinesG (fun l => l) c i.ihdr.width i.ihdr.height (chunksExact (i.ihdr.width * c) i.data)).flatten ∧
       deinterlaceImage j = some i := by
   have hrb : Spec.rowBytes i.ihdr.width i.ihdr.bpp = i.ihdr.width * c := by rw [hbpp]; exact rowBytes_bytes _ c
   have hwc : 0 < i.ihdr.width * c := Nat.mul_pos hw hc
@@ -875,7 +876,7 @@ theorem deinterlace_interlace_bytes (i : Img) (c : Nat) (hc : 0 < c) (hbpp : i.i
   have hmap : (lines.map fun l => l.2.1) = chunksExact (i.ihdr.width * c) i.data := hRl
   rw [hmap] at hint
   refine ⟨⟨{ i.ihdr with interlaced := true },
-    (allLinesG (fun l => l) c i.ihdr.width i.ihdr.height (chunksExact (i.ihdr.width * c) i.data)).flatten⟩, ?_, rfl, ?_⟩
+    (allLinesG (fun l => l) c i.ihdr.width i.ihdr.height (chunksExact (i.ihdr.width * c) i.data)).flatten⟩, ?_, rfl, rfl, ?_⟩
   · unfold interlaceImage
     rw [hint]
     rfl
@@ -887,6 +888,73 @@ theorem deinterlace_interlace_bytes (i : Img) (c : Nat) (hc : 0 < c) (hbpp : i.i
     simp only at hil
     subst hil
     rfl
+
+/-- the lines of a pass, concatenated, without the case split on emptiness -/
+theorem passLines_flatten {α} (enc : List α → Bytes) (henc_nil : enc [] = []) (c w h p : Nat) (R : List (List α)) :
+    (passLinesG enc c w h p R).flatten =
+      (passRowsOf p h).flatMap fun y => enc (passRowUnits c w p (R.getD y [])) := by
+  unfold passLinesG
+  by_cases hne : passEmptyS p w h
+  · rw [if_pos hne]
+    rcases Classical.em (Spec.passCount h (geom p).ys (geom p).dy = 0) with hh0 | hh0
+    · simp only [passRowsOf, hh0, List.range'_zero, List.flatMap_nil, List.flatten_nil]
+    · have hw0 : Spec.passCount w (geom p).xs (geom p).dx = 0 := by
+        rcases Classical.em (Spec.passCount w (geom p).xs (geom p).dx = 0) with h0 | h0
+        · exact h0
+        · exact absurd hne ((not_empty_iff p w h).mpr ⟨h0, hh0⟩)
+      have : ∀ y ∈ passRowsOf p h, (fun y => enc (passRowUnits c w p (R.getD y []))) y = [] := by
+        intro y _
+        simp only [passRowUnits, hw0, List.range'_zero, List.map_nil, List.flatten_nil, henc_nil]
+      rw [flatMap_nil_of_forall _ _ this]
+      rfl
+  · rw [if_neg hne, List.flatMap_def]
+
+/-- **`interlace_image` moves every pixel to the position the specification assigns it** (whole image,
+    byte pixels, every size): the interlaced data is, position by position along the specification's
+    Adam7 storage order (`adam7Order`: pass after pass, row after row, the pass's columns), the pixel of
+    the original at those coordinates. Together with `adam7Order_each_once` (every coordinate occurs
+    exactly once) nothing is lost, duplicated or misplaced. -/
+theorem interlace_places_pixels (i : Img) (c : Nat) (hc : 0 < c) (hbpp : i.ihdr.bpp = 8 * c)
+    (hw : 1 ≤ i.ihdr.width) (hil : i.ihdr.interlaced = false)
+    (hlen : i.data.length = i.ihdr.height * (i.ihdr.width * c)) :
+    (interlaceImage i).map (·.data) =
+      some ((adam7Order i.ihdr.width i.ihdr.height).flatMap fun xy =>
+        pixelAt c ((chunksExact (i.ihdr.width * c) i.data).getD xy.2 []) xy.1) := by
+  have hrb : Spec.rowBytes i.ihdr.width i.ihdr.bpp = i.ihdr.width * c := by rw [hbpp]; exact rowBytes_bytes _ c
+  have hwc : 0 < i.ihdr.width * c := Nat.mul_pos hw hc
+  obtain ⟨lines, hl, hRl, hn⟩ := progressive_lines i (by omega) hw hil (by rw [hrb]; exact hlen)
+  rw [hrb] at hRl
+  obtain ⟨_, hpl⟩ := flatten_chunksExact (i.ihdr.width * c) hwc i.ihdr.height i.data hlen
+  have hrows : ∀ l ∈ lines, l.2.1.length = i.ihdr.width * c := by
+    intro l hlm
+    apply hpl
+    rw [← hRl]
+    exact List.mem_map.mpr ⟨l, hlm, rfl⟩
+  have hint := interlaceData_eq (fun l : Bytes => l) (fun l => l) rfl i c hc lines hl hn hrows
+    (by
+      intro k y l hlm
+      rw [hbpp]
+      exact interlace_row_bytes i.ihdr.width c y k hc l.2.1 (hrows l hlm))
+  have hmap : (lines.map fun l => l.2.1) = chunksExact (i.ihdr.width * c) i.data := hRl
+  rw [hmap] at hint
+  unfold interlaceImage
+  rw [hint]
+  simp only [Option.map_some, Option.some.injEq]
+  unfold allLinesG adam7Order
+  rw [flatten_flatMap, List.flatMap_assoc]
+  have hr : List.range' 1 7 = (List.range 7).map (· + 1) := by decide
+  rw [hr, List.flatMap_map]
+  apply flatMap_congr_of_mem
+  intro k hk
+  have hk7 : k < 7 := List.mem_range.mp hk
+  have hg : Spec.adam7.getD k ⟨0, 0, 1, 1⟩ = geom (k + 1) := by simp [geom]
+  rw [passLines_flatten _ rfl]
+  simp only [passCoords, hg, List.flatMap_assoc, List.flatMap_map]
+  rw [lattice_ap _ _ (geom_rows (k + 1) (by omega) (by omega)), lattice_ap _ _ (geom_cols (k + 1) (by omega) (by omega))]
+  unfold passRowsOf passRowUnits
+  apply flatMap_congr_of_mem
+  intro y _
+  rw [List.flatMap_def]
 
 /-- Non-vacuity: a 3x2 RGB-8 image (c = 3) meets the hypotheses; its interlaced form differs from it
     and comes back. -/
